@@ -61,15 +61,19 @@ CHECKS = {
           "Tie to the source by translation: translate/py_nsi_terms.py (an "
           "abstract interpreter over the Python ast of core/network.py that "
           "resolves `*` the way scipy.sparse / numpy do for the operand types) "
-          "regenerates on every run the expression each of 32 algebraic n.s.i. "
-          "measure configurations computes, as a term of a sparse-matrix "
-          "algebra (Model/MatAlg.v); Proofs/MatAlgGen.v proves each one "
-          "denotes its catalogue term (incl. the uncorrected clustering "
-          "formula for symmetric loop-free A) and hence is itself invariant "
-          "under node splitting with positive weights and 0 < p < 1.",
+          "regenerates on every run the expression each of 37 n.s.i. measure "
+          "configurations computes (32 algebraic, 5 distance-based), as a "
+          "term of a sparse-matrix algebra (Model/MatAlg.v); "
+          "Proofs/MatAlgGen.v proves each one denotes its catalogue term "
+          "(incl. the uncorrected clustering formula for symmetric loop-free "
+          "A) and hence is itself invariant under node splitting with "
+          "positive weights and 0 < p < 1; Proofs/DistFn.v proves the "
+          "translator's reading of entrywise functions of the distance "
+          "matrix (1/D, 2**-D, D with inf overwritten) sound on reflexive "
+          "graphs.",
   "design_ref": "DESIGN.md section 5, C02; section 10.2",
-  "note": "trusted: for the path-length, cross/internal and keyed-cube-root "
-          "measures that each measure term is the code's formula is "
+  "note": "trusted: for the cross/internal and keyed-cube-root "
+          "measures, and for path_lengths() = bounded reachability, that each measure term is the code's formula is "
           "established by correspondence (vm_compute vs implementation, "
           "rtol 1e-9), not by proof; the algebraic measures of Network are "
           "tied by the translator py_nsi_terms.py (trusted: its typing of "
@@ -351,7 +355,10 @@ CHECKS = {
           "clustering of Model/GraphDefs.v (which the C03 check compares with "
           "the library inside Coq). The two unweighted kernels (loop nest over unique pairs, "
           "counting conditions, quotient) are regenerated from numerics.pyx "
-          "on every run and proved to count what the model counts.",
+          "on every run and proved to count what the model counts; the two "
+          "n.s.i. kernels and the A + Id their callers pass are matched "
+          "statement by statement (fail-closed) and their whole-node-set "
+          "limits are checked on the implementation with random node weights.",
   "design_ref": "DESIGN.md section 5, C11",
   "note": "trusted: igraph path lengths (the sub-block relation is checked "
           "on them, not their values); most methods have no Coq model "
